@@ -236,6 +236,77 @@ def typed_writes(run):
                 break
 
 
+def near_nodata_io(run):
+    """
+    Values that are close to, but not equal to, a nodata value are data: a block whose nodata is a number (0, -9999, 3e38) and
+    that holds valid pixels within 1e-5 relative (or 1e-8 absolute) of it is written into datasets with another nodata value
+    (NaN, a number, none = internal mask) through whole and partial windows: every pixel of window ∩ dataset reads back the
+    block's value and validity.  And reading a dataset with such a nodata value returns those pixels as valid.
+    """
+    from homonim.raster_array import RasterArray
+    n, m = 5, 6
+    g = rasters.Grid(8 * 3000, 8 * 5000, 16, 16, m, n)
+    k = 0
+    f32 = lambda v: float(np.float32(v))
+    for bnd, near in ((0.0, [4e-9, -2e-9, 9e-9, 1e-30]), (-9999.0, [-9999.05, -9998.95, -9999.002]), (3.0e38, [2.9999e38, 3.0001e38])):
+        for dnd in (float('nan'), -9999.0, None, 0.0, 3.0e38):
+            if dnd is not None and dnd == bnd:
+                continue
+            for (r0, c0, rl, cl), w in (((0, 0, n, m), None), ((-1, -2, n + 2, m + 3), None), ((1, 1, 3, 4), (1, 3, 2, 5))):
+                k += 1
+                case = dict(i=7_500_000 + k, op='near-nodata write', block_nodata=bnd, dataset_nodata=None if dnd is None else repr(dnd),
+                            block=(r0, c0, rl, cl), window=w)
+                barr = np.array([[r * 8 + c + 1 for c in range(cl)] for r in range(rl)], dtype='float32')
+                bvalid = np.ones((rl, cl), bool)
+                bvalid[rl // 2, cl // 2] = False
+                cells = [(r, c) for r in range(rl) for c in range(cl) if bvalid[r, c]]
+                for j, v in enumerate(near):
+                    barr[cells[(3 * j + 1) % len(cells)]] = v
+                barr[~bvalid] = bnd
+                bg = rasters.Grid(g.x0 + c0 * g.px, g.ytop - r0 * g.py, g.px, g.py, cl, rl)
+                ra = RasterArray(barr.copy(), rasters.CRS3857, bg.transform, nodata=bnd)
+                if not np.array_equal(ra.mask, bvalid):
+                    run.fail(case, f'RasterArray.mask with nodata {bnd}: a value near the nodata value is masked '
+                             f'({barr[ra.mask != bvalid].tolist()})', signature=dict(kind='near-nodata'))
+                    continue
+                p = run.tmpdir() / 'c20_nn.tif'
+                fill = 7.0
+                with rio.Env(GDAL_TIFF_INTERNAL_MASK=True):
+                    with rio.open(p, 'w', driver='GTiff', width=m, height=n, count=1, dtype='float32', crs=rasters.CRS3857,
+                                  transform=g.transform, nodata=dnd) as ds:
+                        ds.write(np.full((n, m), fill, dtype='float32'), 1)
+                        try:
+                            ra.to_rio_dataset(ds, indexes=1, window=None if w is None else Window(w[2], w[0], w[3] - w[2], w[1] - w[0]))
+                        except Exception as ex:
+                            run.fail(case, f'write raised {type(ex).__name__}: {str(ex)[:80]}', signature=dict(kind='write-raises'))
+                            continue
+                    with rio.open(p) as ds:
+                        back = ds.read(1)
+                        mk = ds.read_masks(1).astype(bool)
+                        rd = RasterArray.from_rio_dataset(ds)
+                run.evaluations += 1
+                run.hist['near-nodata writes'] += 1
+                run.nontrivial.add(('nn', k))
+                ww = w if w is not None else (r0, r0 + rl, c0, c0 + cl)
+                for r in range(n):
+                    for c in range(m):
+                        inwin = ww[0] <= r < ww[1] and ww[2] <= c < ww[3] and 0 <= r - r0 < rl and 0 <= c - c0 < cl
+                        if not inwin:
+                            continue
+                        bv, bval = bool(bvalid[r - r0, c - c0]), f32(barr[r - r0, c - c0])
+                        got_valid = bool(mk[r, c])
+                        if got_valid != bv or (bv and f32(back[r, c]) != bval) or bool(rd.mask[r, c]) != bv or \
+                                (bv and f32(rd.array[r, c]) != bval):
+                            run.fail(case, f'pixel ({r},{c}): block holds {"valid " + repr(bval) if bv else "an invalid pixel"}; the dataset '
+                                     f'reads back {"valid" if got_valid else "invalid"} {float(back[r, c])!r}, from_rio_dataset '
+                                     f'{"valid" if rd.mask[r, c] else "invalid"} {float(rd.array[r, c])!r}',
+                                     signature=dict(kind='near-nodata'))
+                            break
+                    else:
+                        continue
+                    break
+
+
 def mask_writes(run, rng, quick, idx, cases, lines, impls):
     """
     Writes of blocks that hold invalid pixels, into datasets whose validity is an internal mask (nodata None) or a numeric
@@ -395,6 +466,7 @@ def run_writes(run, rng, quick, idx0):
                 run.samples.append(dict(case=case, impl=irep[:100]))
     idx = mask_writes(run, rng, quick, idx, cases, lines, impls)
     typed_writes(run)
+    near_nodata_io(run)
     failed = {f['case']['i'] for f in run.failures}
     replies = common.model_batch(lines)
     if replies is None:
